@@ -147,7 +147,7 @@ static std::string read_tail(const std::string &path, size_t max)
 
 static std::string crash_signature(const std::string &err)
 {
-  const char *keys[] = { "ERROR: AddressSanitizer: ", "ERROR: LeakSanitizer: ",
+  const char *keys[] = { "WARNING: ThreadSanitizer: ", "ERROR: AddressSanitizer: ", "ERROR: LeakSanitizer: ",
                          "runtime error: ", "Assertion `" };
   for (const char *k : keys) {
     size_t p = err.find(k);
@@ -452,6 +452,8 @@ static bool judge(CaseResult &r)
 
 static int confirm(const std::vector<uint32_t> &words, long sweep, const std::string &sig)
 {
+  // a hang has already been reproduced three times inside exec_case
+  if (sig == "hang") return 3;
   int c = 0;
   for (int i = 0; i < 3; i++) {
     CaseResult r = exec_case(words, sweep);
@@ -643,6 +645,8 @@ int main(int argc, char **argv)
         if (!shrinking) {
           shrinking = true;
           shrink_deadline = now_s() + (g_tier == "quick" ? 60 : 180);
+          // every attempt to shrink a hang costs three full time-outs: keep the case as it is
+          if (r.sig == "hang") shrink_deadline = 0;
         }
         g_fail.present = true;
         g_fail.words = words;
